@@ -27,95 +27,52 @@ theorem goCombine_eq : ∀ (s : List Item), loneEsc s = false → goCombine s = 
     simp only [loneEsc, Bool.or_eq_false_iff] at h
     simp [goCombine, h.1, Item.unit, goCombine_eq t h.2]
 
-theorem canonM_setKey (k : Str) (v : JV) : ∀ m, canonM (setKey k v m) = setKey k (canon v) (canonM m)
-  | .nil => by simp [setKey, canonM]
-  | .cons k' v' t => by
-    simp only [setKey]; split <;> simp [canonM, setKey, *, canonM_setKey k v t]
-
-theorem canonM_defineAll : ∀ ms acc, canonM (defineAll acc ms) = defineAll (canonM acc) (canonM ms)
-  | .nil, acc => by simp [defineAll, canonM]
-  | .cons k v t, acc => by simp [defineAll, canonM, canonM_defineAll t, canonM_setKey]
-
-theorem goNum_eq (n : NumLit) (h : overflows n = false) : goNum n = some n.value := by
-  unfold overflows at h; unfold goNum
-  split <;> simp_all
-
 mutual
-theorem decode_eq : ∀ rt, rtAny overflows loneEsc rt = false → decode rt = some (canon (denote rt))
+theorem decode_eq : ∀ rt, rtAny loneEsc rt = false → decode rt = some (denote rt)
   | .null, _ => rfl
   | .bool _, _ => rfl
-  | .num n, h => by simp only [rtAny] at h; simp [decode, goNum_eq n h, denote, canon]
-  | .str s, h => by simp only [rtAny] at h; simp [decode, goCombine_eq s h, denote, canon]
-  | .arr l, h => by simp only [rtAny] at h; simp [decode, decodeL_eq l h, denote, canon]
+  | .num n, _ => by simp [decode, goNum, denote]
+  | .str s, h => by simp only [rtAny] at h; simp [decode, goCombine_eq s h, denote]
+  | .arr l, h => by simp only [rtAny] at h; simp [decode, decodeL_eq l h, denote]
   | .obj m, h => by
     simp only [rtAny] at h
-    simp [decode, decodeM_eq m h, denote, canon, canonM_defineAll, canonM]
-theorem decodeL_eq : ∀ l, rtAnyL overflows loneEsc l = false → decodeL l = some (canonL (denoteL l))
+    simp [decode, decodeM_eq m h, denote]
+theorem decodeL_eq : ∀ l, rtAnyL loneEsc l = false → decodeL l = some (denoteL l)
   | .nil, _ => rfl
   | .cons v t, h => by
     simp only [rtAnyL, Bool.or_eq_false_iff] at h
-    simp [decodeL, decode_eq v h.1, decodeL_eq t h.2, denoteL, canonL]
-theorem decodeM_eq : ∀ m, rtAnyM overflows loneEsc m = false → decodeM m = some (canonM (denoteM m))
+    simp [decodeL, decode_eq v h.1, decodeL_eq t h.2, denoteL]
+theorem decodeM_eq : ∀ m, rtAnyM loneEsc m = false → decodeM m = some (denoteM m)
   | .nil, _ => rfl
   | .cons k v t, h => by
     simp only [rtAnyM, Bool.or_eq_false_iff] at h
-    simp [decodeM, decode_eq v h.1.2, decodeM_eq t h.2, denoteM, canonM, goCombine_eq k h.1.1]
-end
-
-theorem sortKeys_short : ∀ m, lenM m < 2 → sortKeys m = m
-  | .nil, _ => rfl
-  | .cons k v .nil, _ => by simp [sortKeys, insertKey]
-  | .cons _ _ (.cons _ _ _), h => by simp [lenM] at h; omega
-
-mutual
-theorem canon_id : ∀ v, unordered v = false → canon v = v
-  | .null, _ => rfl
-  | .bool _, _ => rfl
-  | .num _, _ => rfl
-  | .str _, _ => rfl
-  | .arr l, h => by simp only [unordered] at h; simp [canon, canonL_id l h]
-  | .obj m, h => by
-    simp only [unordered, Bool.or_eq_false_iff, decide_eq_false_iff_not] at h
-    simp [canon, canonM_id m h.2, sortKeys_short m (by omega)]
-theorem canonL_id : ∀ l, unorderedL l = false → canonL l = l
-  | .nil, _ => rfl
-  | .cons v t, h => by
-    simp only [unorderedL, Bool.or_eq_false_iff] at h
-    simp [canonL, canon_id v h.1, canonL_id t h.2]
-theorem canonM_id : ∀ m, unorderedM m = false → canonM m = m
-  | .nil, _ => rfl
-  | .cons k v t, h => by
-    simp only [unorderedM, Bool.or_eq_false_iff] at h
-    simp [canonM, canon_id v h.1, canonM_id t h.2]
+    simp [decodeM, decode_eq v h.1.2, decodeM_eq t h.2, denoteM, goCombine_eq k h.1.1]
 end
 
 mutual
-theorem decode_some : ∀ rt, rtAny overflows (fun _ => false) rt = false → ∃ v, decode rt = some v
-  | .null, _ => ⟨_, rfl⟩
-  | .bool _, _ => ⟨_, rfl⟩
-  | .num n, h => by simp only [rtAny] at h; simp [decode, goNum_eq n h]
-  | .str s, _ => ⟨_, rfl⟩
-  | .arr l, h => by
-    simp only [rtAny] at h
-    obtain ⟨a, ha⟩ := decodeL_some l h
+/-- Go's literal conversion never fails on a text the grammar accepts -/
+theorem decode_some : ∀ rt, ∃ v, decode rt = some v
+  | .null => ⟨_, rfl⟩
+  | .bool _ => ⟨_, rfl⟩
+  | .num n => by simp [decode, goNum]
+  | .str s => ⟨_, rfl⟩
+  | .arr l => by
+    obtain ⟨a, ha⟩ := decodeL_some l
     simp [decode, ha]
-  | .obj m, h => by
-    simp only [rtAny] at h
-    obtain ⟨a, ha⟩ := decodeM_some m h
+  | .obj m => by
+    obtain ⟨a, ha⟩ := decodeM_some m
     simp [decode, ha]
-theorem decodeL_some : ∀ l, rtAnyL overflows (fun _ => false) l = false → ∃ v, decodeL l = some v
-  | .nil, _ => ⟨_, rfl⟩
-  | .cons v t, h => by
-    simp only [rtAnyL, Bool.or_eq_false_iff] at h
-    obtain ⟨a, ha⟩ := decode_some v h.1
-    obtain ⟨b, hb⟩ := decodeL_some t h.2
+theorem decodeL_some : ∀ l, ∃ v, decodeL l = some v
+  | .nil => ⟨_, rfl⟩
+  | .cons v t => by
+    obtain ⟨a, ha⟩ := decode_some v
+    obtain ⟨b, hb⟩ := decodeL_some t
     simp [decodeL, ha, hb]
-theorem decodeM_some : ∀ m, rtAnyM overflows (fun _ => false) m = false → ∃ v, decodeM m = some v
-  | .nil, _ => ⟨_, rfl⟩
-  | .cons k v t, h => by
-    simp only [rtAnyM, Bool.or_eq_false_iff] at h
-    obtain ⟨a, ha⟩ := decode_some v h.1.2
-    obtain ⟨b, hb⟩ := decodeM_some t h.2
+theorem decodeM_some : ∀ m, ∃ v, decodeM m = some v
+  | .nil => ⟨_, rfl⟩
+  | .cons k v t => by
+    obtain ⟨a, ha⟩ := decode_some v
+    obtain ⟨b, hb⟩ := decodeM_some t
     simp [decodeM, ha, hb]
 end
 
@@ -231,8 +188,6 @@ theorem scanString_raw (c : Nat) (r : List Nat) (h1 : c ≠ 34) (h2 : c ≠ 92) 
     scanString (c :: r) = (scanString r).map (fun p => (Item.raw c :: p.1, p.2)) := by
   rw [scanString.eq_def]; simp [h1, h2, h3]
 
-/-- the characters for which Go writes the character itself -/
-def goRaw (c : Nat) : Bool := !(c = 34 || c = 92 || c < 32 || c = 60 || c = 62 || c = 38 || c = 0x2028 || c = 0x2029)
 
 theorem scan_goEsc (c : Nat) (hc : c < 65536) (tail : List Nat) :
     ∃ it, scanString (goEscChar c ++ tail) = (scanString tail).map (fun p => (it :: p.1, p.2)) ∧
@@ -358,10 +313,10 @@ theorem pv_num (f : Nat) (c : Nat) (r : List Nat) (hc : c = 45 ∨ isDigit c = t
 /-- a text can only be followed by a separator, a closing bracket, a line break, or nothing -/
 def Delim (rest : List Nat) : Prop := rest = [] ∨ ∃ c t, rest = c :: t ∧ (c = 44 ∨ c = 93 ∨ c = 125 ∨ c = 10)
 
-/-- the (per-sample validated) assumption on a printed number: it is a JSONNumber in range -/
+/-- the (per-sample validated) assumption on a printed number: it is a JSONNumber -/
 def NumTxt (txt : Str) : Prop :=
   (∃ c t, txt = c :: t ∧ (c = 45 ∨ isDigit c = true)) ∧
-  ∃ n, overflows n = false ∧ ∀ rest, Delim rest → scanNumber (txt ++ rest) = some (n, rest)
+  ∃ n, ∀ rest, Delim rest → scanNumber (txt ++ rest) = some (n, rest)
 
 /-- the value of a number text -/
 def decVal (txt : Str) : FV :=
@@ -429,12 +384,12 @@ theorem nl_ws (gap : Str) (hg : gap.all isWS = true) (d : Nat) : (nl gap d).all 
 
 theorem numTxt_scan (txt : Str) (h : NumTxt txt) (rest : List Nat) (hd : Delim rest) :
     decVal txt = (match scanNumber (txt ++ rest) with | some (n, _) => n.value | none => .nan) ∧
-    ∃ n, scanNumber (txt ++ rest) = some (n, rest) ∧ overflows n = false ∧ n.value = decVal txt := by
-  obtain ⟨_, n, ho, hs⟩ := h
+    ∃ n, scanNumber (txt ++ rest) = some (n, rest) ∧ n.value = decVal txt := by
+  obtain ⟨_, n, hs⟩ := h
   have h0 := hs [] (Or.inl rfl)
   simp only [List.append_nil] at h0
   have h1 := hs rest hd
-  refine ⟨by simp [decVal, h0, h1], n, h1, ho, by simp [decVal, h0]⟩
+  refine ⟨by simp [decVal, h0, h1], n, h1, by simp [decVal, h0]⟩
 
 /-- first character of an emitted value: not white space, not a closing bracket -/
 theorem marshal_head (L : OttoVerif.C06.Lib) (gap : Str) (d : Nat) (g : GV) (hg : GOK L g) :
@@ -507,7 +462,7 @@ mutual
 theorem pv_marshal : ∀ (g : GV), GOK L g → ∀ (w : List Nat) (d : Nat) (rest : List Nat) (fuel : Nat),
     w.all isWS = true → Delim rest → size g ≤ fuel →
     ∃ rt, parseValue fuel (w ++ (marshal L gap d g ++ rest)) = some (rt, rest) ∧
-      denote rt = jvOf L g ∧ rtAny overflows loneEsc rt = false
+      denote rt = jvOf L g ∧ rtAny loneEsc rt = false
   | .nil, _, w, d, rest, fuel, hw, _, hf => by
     obtain ⟨f, rfl⟩ : ∃ f, fuel = f + 1 := ⟨fuel - 1, by simp [size] at hf; omega⟩
     rw [pv_ws _ _ _ hw]
@@ -527,9 +482,9 @@ theorem pv_marshal : ∀ (g : GV), GOK L g → ∀ (w : List Nat) (d : Nat) (res
   | .int i, hg, w, d, rest, fuel, hw, hd, hf => by
     obtain ⟨f, rfl⟩ : ∃ f, fuel = f + 1 := ⟨fuel - 1, by simp [size] at hf; omega⟩
     rw [pv_ws _ _ _ hw]
-    obtain ⟨_, n, hn, ho, hv⟩ := numTxt_scan _ hg rest hd
+    obtain ⟨_, n, hn, hv⟩ := numTxt_scan _ hg rest hd
     obtain ⟨⟨c, t, hct, hc⟩, _⟩ := hg
-    refine ⟨.num n, ?_, by simp [denote, jvOf, hv], by simp [rtAny, ho]⟩
+    refine ⟨.num n, ?_, by simp [denote, jvOf, hv], by simp [rtAny]⟩
     simp only [marshal]
     rw [hct] at hn ⊢
     simp only [List.cons_append] at hn ⊢
@@ -537,9 +492,9 @@ theorem pv_marshal : ∀ (g : GV), GOK L g → ∀ (w : List Nat) (d : Nat) (res
   | .float x, hg, w, d, rest, fuel, hw, hd, hf => by
     obtain ⟨f, rfl⟩ : ∃ f, fuel = f + 1 := ⟨fuel - 1, by simp [size] at hf; omega⟩
     rw [pv_ws _ _ _ hw]
-    obtain ⟨_, n, hn, ho, hv⟩ := numTxt_scan _ hg rest hd
+    obtain ⟨_, n, hn, hv⟩ := numTxt_scan _ hg rest hd
     obtain ⟨⟨c, t, hct, hc⟩, _⟩ := hg
-    refine ⟨.num n, ?_, by simp [denote, jvOf, hv], by simp [rtAny, ho]⟩
+    refine ⟨.num n, ?_, by simp [denote, jvOf, hv], by simp [rtAny]⟩
     simp only [marshal]
     rw [hct] at hn ⊢
     simp only [List.cons_append] at hn ⊢
@@ -580,7 +535,7 @@ theorem pl_marshal : ∀ (l : GVs), GOKL L l → ∀ (d : Nat) (rest : List Nat)
     match l with
     | .nil => True
     | .cons _ _ => ∃ rts, parseElems fuel (elemsText L gap d l ++ rest) = some (rts, rest) ∧
-        denoteL rts = jvOfL L l ∧ rtAnyL overflows loneEsc rts = false
+        denoteL rts = jvOfL L l ∧ rtAnyL loneEsc rts = false
   | .nil, _, _, _, _, _ => trivial
   | .cons v t, hg, d, rest, fuel, hf => by
     obtain ⟨f, rfl⟩ : ∃ f, fuel = f + 1 := ⟨fuel - 1, by simp [sizeL] at hf; omega⟩
@@ -606,7 +561,7 @@ theorem pm_marshal : ∀ (m : GMs), GOKM L m → ∀ (d : Nat) (rest : List Nat)
     match m with
     | .nil => True
     | .cons _ _ _ => ∃ rms, parseMembers fuel (membersText L gap d m ++ rest) = some (rms, rest) ∧
-        denoteM rms = jvOfM L m ∧ rtAnyM overflows loneEsc rms = false
+        denoteM rms = jvOfM L m ∧ rtAnyM loneEsc rms = false
   | .nil, _, _, _, _, _ => trivial
   | .cons k v t, hg, d, rest, fuel, hf => by
     obtain ⟨f, rfl⟩ : ∃ f, fuel = f + 1 := ⟨fuel - 1, by simp [sizeM] at hf; omega⟩
@@ -678,7 +633,7 @@ end
 
 /-- the text otto emits for a Go value tree is a JSON text, and it denotes that tree -/
 theorem parseText_marshal (L : OttoVerif.C06.Lib) (gap : Str) (hgap : gap.all isWS = true) (g : GV) (hg : GOK L g) :
-    ∃ rt, parseText (marshal L gap 0 g) = some rt ∧ denote rt = jvOf L g ∧ rtAny overflows loneEsc rt = false := by
+    ∃ rt, parseText (marshal L gap 0 g) = some rt ∧ denote rt = jvOf L g ∧ rtAny loneEsc rt = false := by
   obtain ⟨rt, h1, h2, h3⟩ := pv_marshal L gap hgap g hg [] 0 [] ((marshal L gap 0 g).length + 1) rfl (Or.inl rfl)
     (by have := size_le L gap g 0 hg; omega)
   refine ⟨rt, ?_, h2, h3⟩
@@ -806,13 +761,13 @@ end
 
 /-! ### Quote -/
 
-theorem goEscChar_eq (c : Nat) (h : htmlChar c = false) : goEscChar c = escChar c := by
-  simp only [htmlChar, Bool.or_eq_false_iff, decide_eq_false_iff_not] at h
+theorem goEscChar_eq (c : Nat) (h : lsps c = false) : goEscChar c = escChar c := by
+  simp only [lsps, Bool.or_eq_false_iff, decide_eq_false_iff_not] at h
   unfold goEscChar escChar
   repeat' split
   all_goals first | rfl | omega
 
-theorem goQuote_eq (s : Str) (h : s.any htmlChar = false) : goQuote s = quote s := by
+theorem goQuote_eq (s : Str) (h : s.any lsps = false) : goQuote s = quote s := by
   unfold goQuote quote
   congr 2
   induction s with
